@@ -141,7 +141,8 @@ def rule_components(col, facts):
                 for st in b["s"]:
                     if st[0] == "=":
                         names |= {last_seg(k[1]) for k in expr_consts(rvalue_expr(cf, st[2], 0))}
-            col.check(R, it + ":IS_CONTIGUOUS", names == {"%s_DIGIT_SEPARATOR_FLAG_MASK" % comp}, "IS_CONTIGUOUS masks with %s" % sorted(names), cf.loc())
+            # (the separator character itself may also be consulted: no character, nothing to skip)
+            col.check(R, it + ":IS_CONTIGUOUS", names - {"DIGIT_SEPARATOR"} == {"%s_DIGIT_SEPARATOR_FLAG_MASK" % comp}, "IS_CONTIGUOUS masks with %s" % sorted(names), cf.loc())
         col.check(R, it + ":IS_CONTIGUOUS-present", bool(cands), "IS_CONTIGUOUS const not found", "")
     # the parser: parse_digits(byte.<comp>_iter(), format.<radix>())
     pn = facts.fn("lexical_parse_float::parse::parse_number")
@@ -477,3 +478,84 @@ def rule_window_keeps_count(col, facts):
             col.check(R, "window:%s" % key, ok,
                       "a zero-count window (`Bytes::from_parts`) is handed out without knowing that the buffer is contiguous (only the component iterator's IS_CONTIGUOUS is tested): digits parsed through it are missing from the caller's current_count(), so e.g. `12a` as u8 is reported Empty by a format with separators in another component", f.loc(f.blocks[t]["ts"]))
     col.floor(R, "take_n window paths", n, 3)
+
+
+def rule_contiguity_consistent(col, facts):
+    """PROTO-contiguous: `Bytes::IS_CONTIGUOUS` (no separator *character*) selects how digits are counted
+    (`current_count` = cursor, `next()` does not count); a component iterator's IS_CONTIGUOUS (no separator
+    *flag* for that component) selects whether that count is read from the cursor or from the component's
+    counter.  The two agree only if a contiguous buffer implies contiguous iterators: with a separator flag but
+    no separator character the iterator reads a counter nobody increments, and every integer is `Empty`.
+    The initialisers are read as decision tables over (flag bits of the component set?, character set?)."""
+    if "format" not in facts.config:
+        return
+    from rules.core import Fn, resolve_env, simplify_proj
+    R = "PROTO-contiguous"
+    consts = {}
+    for c in facts.const_items:
+        if last_seg(c["path"]) == "IS_CONTIGUOUS" and "skip::" in c.get("impl_self", "") and "mir" in c:
+            consts[c["impl_self"].split("<")[0].split("::")[-1]] = c
+
+    def ev(e, flags, sep):
+        e = strip_casts(simplify_proj(e))
+        if e[0] == "k":
+            return int(e[1]) if isinstance(e[1], (int, bool)) else None
+        if e[0] == "kc":
+            if last_seg(e[1]) == "DIGIT_SEPARATOR":
+                return sep
+            return None
+        if e[0] == "call" and last_seg(e[1]) == "digit_separator":
+            return sep
+        if e[0] == "bin" and e[1] == "BitAnd":
+            names = show(e)
+            if "DIGIT_SEPARATOR" in names:      # FORMAT & <component mask>
+                return flags
+            return None
+        if e[0] == "bin" and e[1] in ("Eq", "Ne"):
+            a, b = ev(e[2], flags, sep), ev(e[3], flags, sep)
+            if a is None or b is None:
+                return None
+            return int((a == b) == (e[1] == "Eq"))
+        if e[0] == "un" and e[1] == "Not":
+            a = ev(e[2], flags, sep)
+            return None if a is None else int(not a)
+        return None
+
+    def table(c):
+        f = Fn(c, c["_crate"], facts)
+        rets = {i for i, b in enumerate(f.blocks) if f.live(i) and b["t"]["k"] == "return"}
+        paths = list(enum_paths(f, 0, rets, want_env=True, resolve_atoms=True))
+        out = {}
+        for flags in (0, 1):
+            for sep in (0, 95):
+                val = None
+                for t, atoms, env in paths:
+                    ok = True
+                    for a, p in atoms:
+                        v = ev(a, flags, sep)
+                        if v is None:
+                            raise AnchorMissing("IS_CONTIGUOUS initialiser outside the template: %s" % show(a)[:80])
+                        if isinstance(p, bool) and bool(v) != p:
+                            ok = False
+                    if ok:
+                        r = env.get(0)
+                        val = (int(r[1]) if r[0] == "const" else ev(resolve_env(r[1], env), flags, sep))
+                if val is None:
+                    raise AnchorMissing("IS_CONTIGUOUS initialiser could not be evaluated")
+                out[(flags, sep)] = val
+        return out
+    col.check(R, "Bytes:IS_CONTIGUOUS", "Bytes" in consts, "Bytes::IS_CONTIGUOUS not found", "lexical-util/src/skip.rs")
+    if "Bytes" not in consts:
+        return
+    tb = table(consts["Bytes"])
+    n = 0
+    for name in ("IntegerDigitsIterator", "FractionDigitsIterator", "ExponentDigitsIterator"):
+        if name not in consts:
+            col.bad(R, "%s:IS_CONTIGUOUS" % name, "initialiser not found", "lexical-util/src/skip.rs")
+            continue
+        ti = table(consts[name])
+        n += 1
+        bad = [k for k in tb if tb[k] == 1 and ti[k] == 0]
+        col.check(R, "%s:contiguous-when-buffer-is" % name, not bad,
+                  "for (component separator flag set, separator character) = %s the buffer is contiguous (digits are not counted) but the iterator is not (it reads the digit counter): every input is reported Empty by the integer parser" % [("set" if a else "clear", "none" if b == 0 else "'_'") for a, b in bad], facts.const_loc(consts[name]["path"]))
+    col.floor(R, "component iterators compared with the buffer", n, 3)
